@@ -550,6 +550,56 @@ def gen_scripts(thorough):
                         b.op("state")
                     b.op("peer_close")
                     finish(b, [1, 2] if (inflight or how == "cancel") else [1], "split-" + how, "req1", other=other, cut=cut)
+    # an UNSOLICITED CloseConnectionResponse (the client has not written CloseConnection), with every kind of message id — 0, ids the
+    # client has used, the id of a request in flight, the next id, beyond, 2^32-1, random — at every position of a session (idle, after
+    # a served request, with a request in flight, during negotiation, behind a keep-alive), success or error status; then the
+    # connection ends (EOF: Connect must return the failure, callers are released), or the client is closed locally, or a real
+    # Shutdown follows (answered, or cut off by EOF). Nothing the reader sends unasked may turn the end of the stream into a wait.
+    rnd = random.Random(90210)
+    for version in (1, 2):
+        for pos in ("idle", "served", "inflight", "neg", "behind-keepalive"):
+            if pos == "neg" and version == 1:
+                continue
+            used = 1 if version == 2 else 0                  # ids 0.. used-1 were stamped on negotiation frames (GetSupportedVersion only)
+            nreq = {"idle": 0, "served": 1, "inflight": 1, "neg": 0, "behind-keepalive": 0}[pos]
+            nxt = used + nreq
+            ids = sorted({0, 1, max(nxt - 1, 0), nxt, nxt + 1, 77, 0xFFFFFFFF, rnd.randrange(2, 1 << 32)})
+            for mid in ids:
+                for end in ("eof", "close", "then-shutdown", "then-shutdown-eof"):
+                    if end.startswith("then-shutdown") and pos not in ("idle", "served"):
+                        continue
+                    if not thorough and end != "eof" and mid not in (0, nxt, 77):
+                        continue
+                    for code in ((0,) if (not thorough or end != "eof") else (0, 100)):
+                        b = cc.SB("c09-unsolicited-ccr-%s-id%d-%s-st%d-v%d" % (pos, mid, end, code, version), version=version)
+                        started = []
+                        if pos == "neg":
+                            b.connect(negotiate=False)
+                            b.expect()                               # GetSupportedVersion read by the reader, not answered
+                        else:
+                            b.connect()
+                        if pos in ("served", "inflight"):
+                            b.send(1, 20, 8, 471)
+                            started.append(1)
+                            if pos == "served":
+                                b.reply_to(1, 30, 6, 472)
+                                b.wait(1)
+                        if pos == "behind-keepalive":
+                            b.keepalive(5151)
+                            b.expect()                               # its acknowledgement
+                        b.peer(4, mid, pl=dict(k="status", code=code), ver=version)
+                        b.op("state")
+                        if end == "close":
+                            b.op("close")
+                        elif end.startswith("then-shutdown"):
+                            b.steps.append(dict(op="shutdown", caller=3))
+                            started.append(3)
+                            b.expect()                               # CloseConnection
+                            if end == "then-shutdown":
+                                b.reply(b.nseen - 1, 4, pl=dict(k="status", code=0), ver=version)
+                                b.wait(3)
+                        b.op("peer_close")
+                        finish(b, started, "unsolicited-ccr", "req1", pos=pos, mid=mid, end=end)
     return out
 
 
@@ -625,6 +675,26 @@ def pred_script(s, g):
         if what:
             return extra + [("unwanted-message-in-pieces-disturbs-stream", "%s (script %s: %d-byte payload delivered in pieces split at %s)" % (
                 "; ".join(what), s["id"], s.get("n"), s.get("split")))]
+        return extra
+    if fam == "unsolicited-ccr":
+        what = []
+        for i, (st, o) in enumerate(zip(steps, obs)):
+            if st["op"] in ("peer_send", "reply", "keepalive") and o.get("st") != "ok":
+                what.append("step %d: the client did not take the reader's frame (typ %s): %s" % (i, st.get("typ", 62), o.get("st")))
+                break
+        what += ["%s still blocked (every goroutine parked) after the connection ended" % b[0] for b in bad]
+        desc = "script %s: CloseConnectionResponse with message id %d that the client never asked for (%s), then %s" % (
+            s["id"], s.get("mid"), s.get("pos"), {"eof": "the reader hangs up", "close": "a local Close", "then-shutdown": "a Shutdown that the reader answers",
+                                                   "then-shutdown-eof": "a Shutdown that the reader cuts off by hanging up"}[s.get("end")])
+        if what:
+            return extra + [("unsolicited-close-response-then-eof-parks-read-loop", "%s (%s)" % ("; ".join(what), desc))]
+        want = "other" if s.get("end") in ("eof", "then-shutdown-eof") else "closed"
+        if s.get("pos") == "neg" and s.get("mid") == 0:
+            want = "other"      # it carries the id of the outstanding GetSupportedVersion: a reply of the wrong type, negotiation fails first
+        wc = [o.get("res") for st, o in zip(steps, obs) if st["op"] == "wait_connect"]
+        if wc and wc[0] != want:
+            extra.append(("connect-result-reason:unsolicited-ccr:%s:%s" % (s.get("end"), wc[0]),
+                          "Connect returned class %s, expected %s (%s)" % (wc[0], want, desc)))
         return extra
     if fam.startswith("flood-"):
         what = []
